@@ -121,7 +121,22 @@ class Session:
                 plan.deltas = list(inp["plan_deltas"])
             return plan
 
-        patches: List[Any] = [E.patched_attr(orch, t3_deliberate=planner), E.patched_attr(core, _should_yield=spy_should_yield)]
+        real_rag = core.rag_once
+
+        def rag_keep(bundle, plan, retrieve_fn, **k):
+            # the one-shot RAG refinement rebuilds the plan: carry the injected flag / deltas over
+            new_plan, metrics = real_rag(bundle, plan, retrieve_fn, **k)
+            try:
+                if inp.get("plan_refl"):
+                    new_plan.reflection = True
+                if inp.get("plan_deltas"):
+                    new_plan.deltas = list(inp["plan_deltas"])
+            except Exception:
+                pass
+            return new_plan, metrics
+
+        patches: List[Any] = [E.patched_attr(orch, t3_deliberate=planner), E.patched_attr(core, _should_yield=spy_should_yield),
+                              E.patched_attr(core, rag_once=rag_keep)]
         from clematis.engine.stages.t3.reflect import reflect as real_reflect
 
         if inp.get("refl_out") == "error" or "refl_compute" in faults:
